@@ -234,7 +234,7 @@ def check_readback(ctx, rx, src):
             a = sorted(_norm_str(m) for m in getattr(rx, role))
             b = sorted(_norm_str(m) for m in getattr(back, role))
             if a != b:
-                if any(SY.has_equivalent_substituents(m) or T.ring_diene_ct(m) or SY.symmetric_cage(m) for m in getattr(rx, role)):
+                if any(SY.has_equivalent_substituents(m) or T.ring_diene_ct(m) or SY.symmetric_cage(m) or SY.symmetric_bridged_polycycle(m) for m in getattr(rx, role)):
                     ctx.exclude('canonical-string-gap', {'reaction': s})
                     continue
                 if any(_macrocycle_bond_at_small_ring_atom(m) for m in getattr(rx, role)):
